@@ -227,7 +227,7 @@ def run_program(ctx, rep, case, options, batch):
     layout = gs.catalogue_layout(case['layout'])
     text = gs.render(prog, layout)
     case['text'] = text
-    real = pc.impl(P.parse_model, text)
+    real = pc.impl(pc.parse_model, text)
     real_j = {'ok': pc.syms_json(real['ok'])} if 'ok' in real else real
     rep.dist['mutation:' + case['tag']] += 1
     rep.dist['parse:' + ('accepted' if 'ok' in real else real['err'])] += 1
@@ -357,7 +357,7 @@ def direct_correspondence(ctx, rep):
                           pc.line('p_eq_terms', {'lhs': [pc.term_json(t) for t in lt['ok']], 'rhs': [pc.term_json(t) for t in rt['ok']]}),
                           {'ok': [pc.term_json(t) for t in r['ok']]} if 'ok' in r else r))
     for text in HAND_SCRIPTS:
-        real = pc.impl(P.parse_model, text)
+        real = pc.impl(pc.parse_model, text)
         real_j = {'ok': pc.syms_json(real['ok'])} if 'ok' in real else real
         scs = [pc.statement_case(st) for st in P.split_equations(text)]
         if pc.payload_ok(scs):
@@ -393,7 +393,7 @@ def direct_correspondence(ctx, rep):
 def function_clash_note(rep):
     """Outside the grammar (a variable named like a function that the same statement calls): record what the code does."""
     try:
-        syms = P.parse_model('Y = log + log(X)')
+        syms = pc.parse_model('Y = log + log(X)')
         kinds = {s.name: P.Type(s.type).name for s in syms}
         rep.notes.append(f"outside the C01 grammar: 'Y = log + log(X)' is accepted with symbols {kinds} — the variable `log` is "
                          "overwritten by the function symbol and appears in no class list (theorem classify_spec_false_at_witness)")
@@ -433,5 +433,12 @@ def replay(ctx, rep, case):
     opts = [case['opts']] if 'opts' in case else latin_options()
     run_program(ctx, rep, c, opts, [])
     print('  text  :', json.dumps(c['text']))
-    r = pc.impl(P.parse_model, c['text'])
+    r = pc.impl(pc.parse_model, c['text'])
     print('  result:', [(s.name, P.Type(s.type).name, s.lags, s.leads) for s in r['ok']] if 'ok' in r else r['err'])
+
+
+def search(ctx, rep, disagreements):
+    """Extended failing-input search after a broken proof obligation / correspondence: the same oracle, twice the budget
+    (the quick budget already covers every mutation class; 4x would exceed the time limit together with the rebuild)."""
+    ctx.scale = 2
+    run(ctx, rep)
